@@ -138,6 +138,8 @@ func init() {
 // replayTrackerObligation: histories for the invariant clauses that have no solver model (quantified goals).
 func replayTrackerObligation(w *World, rp *Replay, id string, o *Obligation, repo string) {
 	switch {
+	case strings.Contains(o.Name, "/atomic:") || strings.Contains(o.Name, "/guard:") || strings.Contains(o.Name, "/lockorder:"):
+		replayAtomicity(w, rp, id, o, repo)
 	case id == "C09" || strings.Contains(o.Name, "ensures:bind"):
 		// clause "a tracked session whose credential-disposal record was processed is not bound":
 		// short session whose records all precede the login line, then the PID is reused.
